@@ -24,8 +24,8 @@ from .common import E1_ASSUMPTIONS, E1_COMPONENTS, remove_outputs, viol
 ID = "C17"
 LEVEL = "exploration"
 TIERS = {
-    "quick": {"shards": 64, "examples": 8, "det_shards": 2},
-    "thorough": {"shards": 640, "examples": 24, "det_shards": 8},
+    "quick": {"shards": 128, "examples": 16, "det_shards": 2},
+    "thorough": {"shards": 1024, "examples": 40, "det_shards": 8},
 }
 RULE = ("case = history: 1-3 small worlds and <= 8 operations (run / run_many with the world of interest first, last or in "
         "the middle / stdout run / API run through cminx.document / Documenter run / companion run under another "
@@ -41,7 +41,7 @@ ASSUMPTIONS = E1_ASSUMPTIONS + [
     "in a multi-input call all inputs share the output directory: the top-level index.rst is excluded from comparison, and the "
     "worlds of one history use disjoint top-level names",
     "output directories are never inside the input tree here"]
-PROBES = ["op_run", "op_run_many", "op_stdout", "op_api", "op_documenter", "op_companion", "relocated", "cwd_changed",
+PROBES = ["op_run", "op_run_file", "op_run_many", "op_stdout", "op_api", "op_documenter", "op_companion", "relocated", "cwd_changed",
           "listing_key_changed", "world_of_interest_first", "world_of_interest_last", "world_of_interest_middle",
           "default_prefix", "explicit_prefix", "repeat_same_world_ge_3", "companion_hashseed_differs"]
 
@@ -82,6 +82,7 @@ def swarm(rng, tier):
         "api": rng.random() < 0.5,
         "prefix": rng.choice([None, None, "pfx"]),
         "patterns": rng.random() < 0.3,
+        "classes": rng.random() < 0.5,
     }
 
 
@@ -97,20 +98,27 @@ def strategy(cfg):
                 parts = rel.split("/")
                 parts[0] = f"w{i}_" + parts[0]
                 tree["/".join(parts)] = c
+            if cfg.get("classes"):
+                # a module whose rendering walks several collections (bases, members, attributes, sections)
+                from .. import cmakegen
+                desc = {"mod": None, "cmds": [{"k": cmakegen.KINDS.index("class"), "doc": 1, "v": 1 | 4 | draw(st.integers(0, 7)) * 8,
+                                               "n": draw(st.integers(0, 8))},
+                                              {"k": cmakegen.KINDS.index("ct_test"), "doc": 1, "v": draw(st.integers(0, 3)), "n": 2}]}
+                tree[f"w{i}_classes.cmake"] = cmakegen.render(desc, f"c{i}").text
             worlds.append({"name": f"proj{i}", "tree": tree})
         ops = []
-        kinds = ["run", "run", "run", "stdout"]
+        kinds = ["run", "run", "run", "stdout", "run_file"]
         if cfg["worlds"] > 1:
             kinds += ["run_many", "run_many"]
         if cfg["api"]:
             kinds += ["api", "documenter"]
         if cfg["companion"]:
-            kinds += ["companion"]
+            kinds += ["companion", "companion"]
         n = draw(st.integers(2, cfg["ops"]))
         for _ in range(n):
             k = draw(st.sampled_from(kinds))
             w = draw(st.integers(0, cfg["worlds"] - 1))
-            op = {"op": k, "w": w, "loc": draw(st.sampled_from(LOCS)),
+            op = {"op": k, "w": w, "f": draw(st.integers(0, 5)), "loc": draw(st.sampled_from(LOCS)),
                   "cwd": draw(st.sampled_from(["", "loc", "proj", "elsewhere"])),
                   "abs": draw(st.booleans()), "key": draw(st.integers(0, 30))}
             if k == "run_many":
@@ -216,6 +224,21 @@ def evaluate(spec, ctx):
                 pages = core.read_tree(base, "out")
                 record(w, "cli", opi, pages, op)
                 record(w, "cli-noindex", opi, {k: v for k, v in pages.items() if k != "index.rst"}, op)
+            elif op["op"] == "run_file":
+                cmf = sorted(f for f in refs.tree_files(spec["worlds"][w]["tree"]) if refs.is_cmake(f))
+                if not cmf:
+                    continue
+                rel = cmf[op.get("f", 0) % len(cmf)]
+                ftarget = posixpath.join(target, rel)
+                fcwd = {"": "", "loc": op["loc"], "proj": posixpath.dirname(ftarget), "elsewhere": "elsewhere"}[op["cwd"]]
+                farg = "{BASE}/" + ftarget if op["abs"] else posixpath.relpath(ftarget, fcwd or ".")
+                res = core.run_call(base, {"cwd": fcwd, "argv": ["-o", "{BASE}/out"] + extra + [farg],
+                                           "listing_key": op["key"]}, snap=False)
+                ctx.note_call(res)
+                if res.status != 0:
+                    viols.append(viol("run-failed", f"step {opi} (single file): status {res.status} exc {res.exc}"))
+                    break
+                record(w, "file:" + rel, opi, core.read_tree(base, "out"), op)
             elif op["op"] == "stdout":
                 res = core.run_call(base, {"cwd": cwd, "argv": ["-r"] + extra + [arg], "listing_key": op["key"]}, snap=False)
                 ctx.note_call(res)
